@@ -296,6 +296,13 @@ fn reopen_and_check(n: usize, c: &[Commit; 4], k: usize, deep: bool) {
     }
 }
 
+/// Under Kani `buggy::Bug::new` panics (debug assertions), so no `Bug` value ever exists and
+/// this conversion is dead code; cutting it here keeps CBMC's symbolic execution from carrying
+/// the (infeasible) error return of every `.assume(..)?` as an if-then-else into all later values.
+fn no_bug_values(_b: buggy::Bug) -> StorageError {
+    panic!("a buggy::Bug value exists under Kani")
+}
+
 fn fresh_writer() -> Writer {
     match Writer::create(vf::fake_fd()) {
         Ok(w) => w,
@@ -317,6 +324,7 @@ fn reopen_clean() -> Writer {
 /// the other slot: torn mixes of two valid roots.
 #[kani::proof]
 #[kani::unwind(50)]
+#[kani::stub(<StorageError as core::convert::From<buggy::Bug>>::from, no_bug_values)]
 fn c15_crash_three_commits() {
     let mut c = [NO_COMMIT; 4];
     let mut w = fresh_writer();
@@ -337,6 +345,7 @@ fn c15_crash_three_commits() {
 /// not overwrite the root it was opened from) and continues the generation sequence.
 #[kani::proof]
 #[kani::unwind(50)]
+#[kani::stub(<StorageError as core::convert::From<buggy::Bug>>::from, no_bug_values)]
 fn c15_crash_after_reopen() {
     let mut c = [NO_COMMIT; 4];
     let mut w = fresh_writer();
@@ -359,6 +368,7 @@ fn c15_crash_after_reopen() {
 /// append; commit3 — crash anywhere in the second run.
 #[kani::proof]
 #[kani::unwind(50)]
+#[kani::stub(<StorageError as core::convert::From<buggy::Bug>>::from, no_bug_values)]
 fn c15_crash_after_torn_recovery() {
     let mut c = [NO_COMMIT; 4];
     let mut w = fresh_writer();
@@ -393,6 +403,7 @@ fn c15_crash_after_torn_recovery() {
 /// create; commit1; append; commit2 — crash anywhere.
 #[kani::proof]
 #[kani::unwind(50)]
+#[kani::stub(<StorageError as core::convert::From<buggy::Bug>>::from, no_bug_values)]
 fn c15_crash_two_commits() {
     let mut c = [NO_COMMIT; 4];
     let mut w = fresh_writer();
@@ -482,6 +493,7 @@ fn probe_append(w: &mut Writer) -> Result<(u64, u64), StorageError> {
 
 #[kani::proof]
 #[kani::unwind(50)]
+#[kani::stub(<StorageError as core::convert::From<buggy::Bug>>::from, no_bug_values)]
 fn c15_probe_writer() {
     let mut w = fresh_writer();
     match probe_append(&mut w) {
@@ -653,6 +665,7 @@ fn g4(buf: &[u8], n: usize) -> Option<usize> {
 
 #[kani::proof]
 #[kani::unwind(50)]
+#[kani::stub(<StorageError as core::convert::From<buggy::Bug>>::from, no_bug_values)]
 fn c15_probe_p6() {
     rspin(g1(&[1, 2, 3, 4], 2));
     spin(11);
